@@ -420,6 +420,8 @@ type vf09Mon struct {
 	bst int
 	// excuses named in the verdict: the accounting was dropped by an orphan prune / a Start was held back
 	pruned, delayed bool
+	// G: a held Accounting-Response was delivered for this session after it had been released
+	ghost bool
 }
 
 func (m *vf09Mon) event(kind byte, calls []vf09Call) {
@@ -518,6 +520,9 @@ type vf09World struct {
 	// interim bucket of each co-location class of the case, and a bucket holding none of its sessions
 	classBucket map[int]int
 	freeBucket  int
+	// sessions released while one of their Interims was unanswered / for which such a response was then delivered
+	relWhileHeld map[string]bool
+	lateSeen     map[string]bool
 }
 
 func (w *vf09World) newComponent() {
@@ -962,15 +967,20 @@ func vf09RunCase(line string, g0 int) (res string) {
 		if mons[j].delayed {
 			x += "D"
 		}
+		if w.lateSeen[w.sess[j].id] {
+			x += "G"
+		}
 		vs = append(vs, fmt.Sprintf("v%d=%s%s%s%s%s%s", j, bit(mons[j].brk), bit(mons[j].stp), bit(mons[j].mono), bit(mons[j].snt), bit(mons[j].ord), x))
 	}
 	d := "racy"
 	if !racy {
 		d = w.dump()
 		w.ap.mu.Lock()
-		if w.ap.anyHeldInt {
-			// the checkpoint written by a late response (also for a session released meanwhile) is not modelled
-			d = "held"
+		for _, h := range w.ap.held {
+			if h.kind == 'I' {
+				// a response is still outstanding: where its checkpoint lands is decided after the history ends
+				d = "held"
+			}
 		}
 		w.ap.mu.Unlock()
 	}
@@ -1046,6 +1056,16 @@ func (w *vf09World) exec(a []string) string {
 		if a[2] != "" && w.setSnap(a[2]) != nil {
 			return "badline"
 		}
+		w.ap.mu.Lock()
+		for _, h := range w.ap.held {
+			if h.kind == 'I' && h.sid == w.sess[i].id {
+				if w.relWhileHeld == nil {
+					w.relWhileHeld = map[string]bool{}
+				}
+				w.relWhileHeld[h.sid] = true
+			}
+		}
+		w.ap.mu.Unlock()
 		sess := w.payload(i, 0, 0, models.SessionStateReleased)
 		w.c.handleSessionLifecycle(events.Event{Timestamp: time.Now(), Data: &events.SessionLifecycleEvent{
 			AccessType: w.sess[i].typ, Protocol: sess.GetProtocol(), SessionID: w.sess[i].id, State: models.SessionStateReleased, Session: sess}})
@@ -1068,6 +1088,7 @@ func (w *vf09World) exec(a []string) string {
 		w.ap.mu.Unlock()
 		w.c.ProcessAccountingBucket(b)
 	case "B":
+		w.relWhileHeld = nil
 		old := w.c
 		w.newComponent()
 		old.StopContext()
@@ -1091,6 +1112,7 @@ func (w *vf09World) exec(a []string) string {
 		hs := w.ap.held
 		w.ap.held = nil
 		w.ap.mu.Unlock()
+		defer func() { w.relWhileHeld = nil }()
 		// per session: the delayed Starts first, then the outstanding responses, each oldest first
 		sort.SliceStable(hs, func(x, y int) bool {
 			if w.idx[hs[x].sid] != w.idx[hs[y].sid] {
@@ -1100,6 +1122,12 @@ func (w *vf09World) exec(a []string) string {
 		})
 		for i, h := range hs {
 			if h.kind == 'I' {
+				if w.relWhileHeld[h.sid] {
+					if w.lateSeen == nil {
+						w.lateSeen = map[string]bool{}
+					}
+					w.lateSeen[h.sid] = true
+				}
 				r := byte('K')
 				if h.fail {
 					r = 'F'
